@@ -50,8 +50,12 @@ def make_judge(res):
     return judge
 
 
-def profile():
+def profile(h=0):
     p = Profile()
+    if h % 8 == 5:  # a stratum of bigger databases (thresholds above a dozen rows)
+        p.max_rows = 45
+        p.max_time_probes = 40
+        p.min_ops, p.max_ops = 4, 10
     return p
 
 
@@ -70,7 +74,7 @@ def run(res, tier, seed, shard, nshards):
         for ci, cfg in enumerate(CONFIGS):
             for h in range(N_HIST[tier]):
                 rng = rng_for("C01", tier, seed, shard, ci, h)
-                s = HistoryRunner(res, cfg, scratch, rng, profile(), judge).run()
+                s = HistoryRunner(res, cfg, scratch, rng, profile(h), judge).run()
                 if h == 0 and shard == 0 and ci in (0, 2):
                     res.sample({"config": cfg_name(cfg), "first_ops": s.log[:6]})
     for b in contracts.drain(res):
@@ -80,6 +84,7 @@ def run(res, tier, seed, shard, nshards):
             res.require(f"answers.search.{serving}.{cfg_name(cfg)}")
             res.require(f"answers.count.{serving}.{cfg_name(cfg)}")
     res.require("result.partial")
+    res.require("histories_big")
     res.assumptions += [
         "time comparison values are timezone-aware datetimes (the documented form)",
         "map() functions preserve the type of the addressed attribute; test() predicates are total",
